@@ -2,7 +2,7 @@
    C16.  A probe is (function, literal arguments); all probes of a case are evaluated in one scan, in order
    (the hash cache is shared by them). *)
 From Coq Require Import QArith Qabs.
-From Boreal Require Import Base.Prelude Spec.MathSpec Spec.Digest Spec.Strtol Spec.RangeSpec Spec.Log2Enc
+From Boreal Require Import Base.Prelude Spec.MathSpec Spec.Digest Spec.Strtol Spec.RangeSpec Spec.Log2Enc Spec.PeriodicSpec
   Model.ModFuncs Model.HashMod Model.MathMod Model.StringMod.
 Open Scope N_scope.
 
@@ -157,3 +157,50 @@ Definition out_ok (o : iout) (rs : list mres) : bool :=
 
 Definition C16_case (m : memory) (ps : list (fn * list arg)) (o : iout) : bool * bool * N :=
   (out_ok o (model_run m no_caches ps), out_ok o (spec_run m ps), 0).
+
+(* ------------------------------------------------------------------ huge periodic inputs
+   The input is k copies of the pattern p (as one byte slice, or as adjacent regions cut at period boundaries when
+   `frag`), too long to be materialised here; probes range over whole periods and are specified in closed form
+   (Spec/PeriodicSpec.v).  `None` = the probe is outside this family (generator error). *)
+Definition huge_call (p : list N) (k : N) (frag : bool) (f : fn) (args : list arg) : option mres :=
+  let with_q (o n : Z) (g : N -> mres) : option mres :=
+    match periods (nlen p) k o n with
+    | None => None
+    | Some None => Some RUndef
+    | Some (Some q) => Some (g q)
+    end in
+  let whole (g : N -> mres) : option mres := Some (if frag then RUndef else g k) in
+  match f, args with
+  | MMean, [AInt o; AInt n] => with_q o n (fun q => of_opt_f (p_mean p q))
+  | MDeviation, [AInt o; AInt n; AFlt mu] => with_q o n (fun q => of_opt_f (p_deviation p q mu))
+  | MEntropy, [AInt o; AInt n] => with_q o n (fun q => RFloat (p_entropy p q))
+  | MSerial, [AInt o; AInt n] => with_q o n (fun q => RFloat (p_scc p q))
+  | MMonte, [AInt o; AInt n] => with_q o n (fun q => of_opt_f (p_monte p q))
+  | MMode, [AInt o; AInt n] => with_q o n (fun q => RInt (p_mode p q))
+  | MMode, [] => whole (fun q => RInt (p_mode p q))
+  | MCount, [AInt b; AInt o; AInt n] =>
+      if (b <? 0)%Z then Some RUndef else with_q o n (fun q => of_opt_z (p_count_opt p q (Z.to_N b)))
+  | MCount, [AInt b] => if (b <? 0)%Z then Some RUndef else whole (fun q => of_opt_z (p_count_opt p q (Z.to_N b)))
+  | MPercentage, [AInt b; AInt o; AInt n] =>
+      if (b <? 0)%Z then Some RUndef else with_q o n (fun q => of_opt_f (p_percentage p q (Z.to_N b)))
+  | MPercentage, [AInt b] =>
+      if (b <? 0)%Z then Some RUndef else whole (fun q => of_opt_f (p_percentage p q (Z.to_N b)))
+  | HChecksum32, [AInt o; AInt n] => with_q o n (fun q => RInt (Z.of_N (p_checksum32 p q)))
+  | _, _ => None
+  end.
+
+Fixpoint huge_run (p : list N) (k : N) (frag : bool) (ps : list (fn * list arg)) : option (list mres) :=
+  match ps with
+  | [] => Some []
+  | (f, args) :: ps' =>
+      match huge_call p k frag f args, huge_run p k frag ps' with
+      | Some v, Some vs => Some (v :: vs)
+      | _, _ => None
+      end
+  end.
+
+Definition C16_huge_case (p : list N) (k : N) (frag : bool) (ps : list (fn * list arg)) (o : iout) : bool * bool * N :=
+  match huge_run p k frag ps with
+  | Some rs => (out_ok o rs, out_ok o rs, 0)
+  | None => (false, false, 0)
+  end.
